@@ -21,7 +21,7 @@ import struct
 from ..astutil import dotted, norm, walk_local
 from ..core import Ctx, PropSpec, Unsupported
 from ..extract import where
-from ..harness import Harness
+from ..harness import Harness, cursor
 from ..interp import Raised
 
 ENC = "xtce/encodings.py"
@@ -77,7 +77,7 @@ def int_table(ctx: Ctx, h: Harness, thorough: bool):
                             val = int(fb, 2)
                             if enc != "unsigned" and fb[0] == "1":
                                 val -= 1 << w
-                            pos = pkt.attrs["raw_data"].attrs.get("pos")
+                            pos = cursor(h, pkt.attrs["raw_data"])
                             ok = kind == "ok" and got == val and getattr(got, "cls", "") == "IntParameter" and isinstance(got, int) \
                                 and got.attrs.get("raw_value") == val and pos == off + w
                             if not ok:
@@ -160,7 +160,7 @@ def float_table(ctx: Ctx, h: Harness, thorough: bool):
                             pkt = h.packet(data, {})
                             pkt.attrs["raw_data"].attrs["pos"] = off
                             kind, got = h.outcome("e.parse_value(pkt)", ENC, e=e, pkt=pkt)
-                            pos = pkt.attrs["raw_data"].attrs.get("pos")
+                            pos = cursor(h, pkt.attrs["raw_data"])
                             same = kind == "ok" and isinstance(got, float) and ((got != got and want != want) or
                                                                                 (got == want and math.copysign(1, got) == math.copysign(1, want)))
                             ok = same and getattr(got, "cls", "") == "FloatParameter" and pos == off + size
@@ -200,7 +200,7 @@ def float_table(ctx: Ctx, h: Harness, thorough: bool):
                     pkt = h.packet(data, {})
                     pkt.attrs["raw_data"].attrs["pos"] = off
                     kind, got = h.outcome("e.parse_value(pkt)", ENC, e=e, pkt=pkt)
-                    pos = pkt.attrs["raw_data"].attrs.get("pos")
+                    pos = cursor(h, pkt.attrs["raw_data"])
                     ok = kind == "ok" and isinstance(got, float) and got == want and getattr(got, "cls", "") == "FloatParameter" and pos == off + 32
                     if not ok:
                         bad = (f"MIL-1750A word {int(v, 2):08x} ({order}) at bit offset {off}: "
@@ -331,6 +331,9 @@ def check(ctx: Ctx) -> None:
     ctx.guard("R4.pure", ENC, effect_rule, ctx, CallGraph(ctx.prog), roots, "R4.pure", "numeric decoding")
     from .c11 import reparse_rule
     ctx.guard("R4.fresh", "packets.py::CCSDSPacket", reparse_rule, ctx, "R4.fresh")     # "for every packet and bit offset": each parse starts at bit 0
+    # the decoded integer is what the *encoding* says, whatever the parameter type around it declares (`signed` attribute)
+    from .c01 import end_to_end_third
+    ctx.guard("R4.e3", "xtce/definitions.py", end_to_end_third, ctx, "R4.e3")
 
 
 def mutants(prog):
@@ -364,7 +367,7 @@ SPEC = PropSpec(
     pid="C04",
     title="Integer and float fields decode correctly at every size, offset and byte order",
     check=check,
-    floors={"R4.int": 6, "R4.float": 20, "R4.tab": 4, "R4.xml": 9, "R4.cls": 12, "R4.pure": 3},
+    floors={"R4.e3": 20, "R4.int": 6, "R4.float": 20, "R4.tab": 4, "R4.xml": 9, "R4.cls": 12, "R4.pure": 3},
     fallback={"R4.tab": ("R4.float",)},
     explanation=("Decision tables by abstract interpretation of the numeric decoders against the checker's reference: "
                  "integers for 18 widths (thorough: every width 1..65 plus 72/96/128) x three encodings x both byte "
